@@ -53,6 +53,7 @@ type ConvergeResult struct {
 // It emits C02 (and fixpoint clauses of C04, C07, C14) violations.
 func (w *World) Converge(ns, name string, pendingChanges int) ConvergeResult {
 	w.Coop = true
+	w.phaseStart = w.Now()
 	w.tracef("--- convergence phase for %s/%s ---", ns, name)
 	w.forgetFailedPodBackoff(ns, name)
 	res := ConvergeResult{}
@@ -372,8 +373,20 @@ func (m *Monitors) AtFixpoint(ns, name, live string, res ConvergeResult) {
 			liveN++
 		}
 		if p.Labels[v1.ExtendedDaemonSetReplicaSetCanaryLabelKey] != "" {
-			// inside the 5-minute clean-up window the label must be gone once the RS is active
-			m.viol("C04", "C04.label-off", nil, nil, map[string]any{"pod": p.Name})
+			// The controller removes the label during the five minutes after the replica set became
+			// active. Judged when that happened during this cooperative phase (rounds a few seconds
+			// apart); a promotion during the hostile part may have been followed by an arbitrary jump of
+			// the clock with no sync at all (controller not running), which is not a reconcile order.
+			rs := kit.GetRS(w.S, ns, p.Labels[v1.ExtendedDaemonSetReplicaSetNameLabelKey])
+			var act *v1.ExtendedDaemonSetReplicaSetCondition
+			if rs != nil {
+				act = kit.Cond(&rs.Status, v1.ConditionTypeActive)
+			}
+			if act == nil || act.Status != corev1.ConditionTrue || act.LastTransitionTime.Time.Before(w.phaseStart) {
+				ctx.Count("C04.label-off-skipped-promoted-before-phase")
+			} else {
+				m.viol("C04", "C04.label-off", nil, nil, map[string]any{"pod": p.Name, "activeSince": act.LastTransitionTime.Time.String(), "phaseStart": w.phaseStart.String()})
+			}
 		}
 	}
 	st := e.Status
